@@ -346,11 +346,11 @@ Proof.
     unfold dgood. cbn [nested_dest dest_range dest_safe uses_dest]. destruct e; try discriminate; cbn [expr_range expr_rng] in *;
       rewrite ?(uses_within_of ts _ _ Hc Hb U), ?N, ?S; repeat split; exact U.
   - (* in order *)
-    intros lb tcl cl rm tk rem rb i D IH i0 D0 IH0 i1 Hc. pose proof Hc as Hw. chsplit Hc.
+    intros lb tcl cl rm tk rem rb i D IH ncl i0 D0 IH0 i1 Hc. pose proof Hc as Hw. chsplit Hc.
     destruct (IH ltac:(assumption)) as (N & S & U). destruct (IH0 ltac:(assumption)) as (N0 & S0 & U0).
     assert (Uw : utok (lb :: tcl ++ rm :: tk ++ [rb]) (flat_map uses_dcl cl ++ uses_kod rem)).
     { apply utok_app; [eapply utok_mono; [|exact U]; inc|eapply utok_mono; [|exact U0]; inc]. }
-    pose proof (dest_bounds _ _ (DD_inorder lb tcl cl rm tk rem rb i D i0 D0 i1)) as Hb. cbn [dest_rng] in Hb.
+    pose proof (dest_bounds _ _ (DD_inorder lb tcl cl rm tk rem rb i D ncl i0 D0 i1)) as Hb. cbn [dest_rng] in Hb.
     unfold dgood. rewrite nested_dinorder, safe_dinorder, (uses_within_of _ _ _ Hw Hb Uw), N, S, N0, S0. repeat split.
     cbn [uses_dest]. exact Uw.
   - (* allotment *)
